@@ -84,13 +84,15 @@ example : (translate
 
 /-! ## M-Core-3: function bodies (asm/local.go on real instruction lines, not skeletons) -/
 
-/-- whatever the translation of a function body returns, it is never a function with a dangling, doubly defined or mis-kinded local: after
-    numbering (`fill`), every identifier is defined once, every operand and label use is defined, and every label operand is a block -/
-theorem core3_result_is_closed (f g : Core3.Func) (h : Core3.translate f = some g) :
+/-- whatever the translation of a function body returns (in a module defining the globals `ge`), it is never a function with a dangling, doubly
+    defined or mis-kinded local or an undefined global: after numbering (`fill`), every identifier is defined once, every operand and label use is
+    defined, every label operand is a block, and every `@name` operand is a global variable or function of the module -/
+theorem core3_result_is_closed_in (ge : Core3.GEnv) (f g : Core3.Func) (h : Core3.translateIn ge f = some g) :
     ∃ l, Numbering.parseAssign (Core3.slotsOf f) = .ok l ∧
       (Core3.defs (Core3.fill f l)).Nodup ∧ (∀ u ∈ Core3.uses (Core3.fill f l), u ∈ Core3.defs (Core3.fill f l)) ∧
-      (∀ u ∈ Core3.labUses (Core3.fill f l), u ∈ Core3.blockDefs (Core3.fill f l)) := by
-  unfold Core3.translate at h
+      (∀ u ∈ Core3.labUses (Core3.fill f l), u ∈ Core3.blockDefs (Core3.fill f l)) ∧
+      (∀ n ∈ Core3.globUses (Core3.fill f l), n ∈ ge.map (·.1)) := by
+  unfold Core3.translateIn at h
   split at h
   · cases h
   · rename_i l hl
@@ -102,26 +104,49 @@ theorem core3_result_is_closed (f g : Core3.Func) (h : Core3.translate f = some 
       split at h
       · rename_i hu
         simp only [Bool.and_eq_true, List.all_eq_true] at hu
-        refine ⟨(Core3.hasDupI_false_iff_nodup _).mp (by simpa using hd), ?_, ?_⟩
-        · intro u hu'; simpa using hu.1.1 u hu'
-        · intro u hu'; simpa using hu.1.2 u hu'
+        refine ⟨(Core3.hasDupI_false_iff_nodup _).mp (by simpa using hd), ?_, ?_, ?_⟩
+        · intro u hu'; simpa using hu.1.1.1.1 u hu'
+        · intro u hu'; simpa using hu.1.1.1.2 u hu'
+        · intro n hn; simpa using hu.1.2 n hn
       · cases h
 
+theorem core3_result_is_closed (f g : Core3.Func) (h : Core3.translate f = some g) :
+    ∃ l, Numbering.parseAssign (Core3.slotsOf f) = .ok l ∧
+      (Core3.defs (Core3.fill f l)).Nodup ∧ (∀ u ∈ Core3.uses (Core3.fill f l), u ∈ Core3.defs (Core3.fill f l)) ∧
+      (∀ u ∈ Core3.labUses (Core3.fill f l), u ∈ Core3.blockDefs (Core3.fill f l)) := by
+  obtain ⟨l, h1, h2, h3, h4, _⟩ := core3_result_is_closed_in _ f g h
+  exact ⟨l, h1, h2, h3, h4⟩
+
 /-- a duplicated definition (after numbering) is an error -/
-theorem core3_duplicate_is_error (f : Core3.Func) (l : List Numbering.Slot) (hl : Numbering.parseAssign (Core3.slotsOf f) = .ok l)
-    (h : Core3.hasDupI (Core3.defs (Core3.fill f l)) = true) : Core3.translate f = none := by
-  simp [Core3.translate, hl, h]
+theorem core3_duplicate_is_error (ge : Core3.GEnv) (f : Core3.Func) (l : List Numbering.Slot) (hl : Numbering.parseAssign (Core3.slotsOf f) = .ok l)
+    (h : Core3.hasDupI (Core3.defs (Core3.fill f l)) = true) : Core3.translateIn ge f = none := by
+  simp [Core3.translateIn, hl, h]
 
 /-- a use of an identifier the function does not define is an error -/
-theorem core3_undefined_is_error (f : Core3.Func) (l : List Numbering.Slot) (hl : Numbering.parseAssign (Core3.slotsOf f) = .ok l)
-    (u : Core3.Ident) (hu : u ∈ Core3.uses (Core3.fill f l)) (hd : u ∉ Core3.defs (Core3.fill f l)) : Core3.translate f = none := by
+theorem core3_undefined_is_error (ge : Core3.GEnv) (f : Core3.Func) (l : List Numbering.Slot) (hl : Numbering.parseAssign (Core3.slotsOf f) = .ok l)
+    (u : Core3.Ident) (hu : u ∈ Core3.uses (Core3.fill f l)) (hd : u ∉ Core3.defs (Core3.fill f l)) : Core3.translateIn ge f = none := by
   have : ((Core3.uses (Core3.fill f l)).all fun u => (Core3.defs (Core3.fill f l)).contains u) = false := by
     rw [List.all_eq_false]; exact ⟨u, hu, by simpa using hd⟩
-  simp only [Core3.translate, hl, this, Bool.false_and, Bool.false_eq_true, if_false]
+  simp only [Core3.translateIn, hl, this, Bool.false_and, Bool.false_eq_true, if_false]
   split <;> rfl
 
+/-- a use of a global the module does not define is an error -/
+theorem core3_undefined_global_is_error (ge : Core3.GEnv) (f : Core3.Func) (l : List Numbering.Slot)
+    (hl : Numbering.parseAssign (Core3.slotsOf f) = .ok l)
+    (n : Bytes) (hu : n ∈ Core3.globUses (Core3.fill f l)) (hd : n ∉ ge.map (·.1)) : Core3.translateIn ge f = none := by
+  have : ((Core3.globUses (Core3.fill f l)).all fun n => (ge.map (·.1)).contains n) = false := by
+    rw [List.all_eq_false]; exact ⟨n, hu, by simpa using hd⟩
+  simp only [Core3.translateIn, hl, this, Bool.and_false, Bool.false_and, Bool.false_eq_true, if_false]
+  split <;> rfl
+
+/-- in particular: a function definition on its own that mentions any global but itself is an error -/
+theorem core3_standalone_global_is_error (f : Core3.Func) (l : List Numbering.Slot) (hl : Numbering.parseAssign (Core3.slotsOf f) = .ok l)
+    (n : Bytes) (hu : n ∈ Core3.globUses (Core3.fill f l)) (hn : n ≠ f.name) : Core3.translate f = none :=
+  core3_undefined_global_is_error _ f l hl n hu (by simpa [Core3.selfEnv] using hn)
+
 /-- a numbering LLVM rejects is an error -/
-theorem core3_bad_numbering_is_error (f : Core3.Func) (h : Numbering.parseAssign (Core3.slotsOf f) = .error) : Core3.translate f = none := by
-  simp [Core3.translate, h]
+theorem core3_bad_numbering_is_error (ge : Core3.GEnv) (f : Core3.Func) (h : Numbering.parseAssign (Core3.slotsOf f) = .error) :
+    Core3.translateIn ge f = none := by
+  simp [Core3.translateIn, h]
 
 end Llir.Props.C05
